@@ -701,6 +701,14 @@ pub fn encode_with_fixed_block_size<T: Source>(
         stream.add_frame(frame);
     }
 
+    // `add_frame` lowers `min_block_size` when the last block is short, but the
+    // minimum in STREAMINFO excludes the last block (and values below 16 are
+    // invalid), so restore the bounds of a fixed-block-size stream.
+    stream
+        .stream_info_mut()
+        .set_block_sizes(block_size, block_size)
+        .unwrap();
+
     let (_, context) = framebuf_and_context;
     stream
         .stream_info_mut()
